@@ -177,6 +177,8 @@ type Checker struct {
 	S *Spec
 	// Seen: what happened, for non-triviality rules.
 	Failed, Overwrites, Removals, SharedRemovals, DupIDs, DenyHits int
+	LastFailed bool // the most recent call failed according to the specification
+	rmpipeNoop bool
 }
 
 func NewChecker() *Checker { return &Checker{X: NewExec(), S: NewSpec()} }
@@ -199,6 +201,17 @@ func RemoveNodeClassOf(err error) string {
 
 // Apply runs op on both sides and returns a mismatch description ("" = agree).
 func (c *Checker) Apply(op Op) string {
+	before := c.Failed
+	msg := c.apply(op)
+	c.LastFailed = c.Failed > before
+	if op.K == "rmpipe" {
+		// RemovePipeline on a missing pipeline changes nothing either
+		c.LastFailed = c.rmpipeNoop
+	}
+	return msg
+}
+
+func (c *Checker) apply(op Op) string {
 	x, s := c.X, c.S
 	switch op.K {
 	case "regnode":
@@ -245,8 +258,10 @@ func (c *Checker) Apply(op Op) string {
 		}
 	case "rmpipe":
 		x.Apply(op)
+		c.rmpipeNoop = true
 		if _, ok := s.Pipes[PKey{eventlogger.EventType(op.ET), eventlogger.PipelineID(op.P)}]; ok {
 			c.Removals++
+			c.rmpipeNoop = false
 		}
 		s.RemovePipeline(op.ET, op.P)
 	case "rpan":
